@@ -201,8 +201,32 @@ impl Ctx {
         });
         let evdir = format!("{}/evidence", VERIF_DIR);
         fs::create_dir_all(&evdir).ok();
+        // Second pass (binary built without debug assertions and overflow checks, run by ./check
+        // before the main pass): its summary goes to a side file that the main pass folds into
+        // the evidence; it never writes the evidence file itself.
+        let nodebug_pass = std::env::var("VERIF_PASS").map(|p| p == "nodebug").unwrap_or(false);
+        let side = format!("{}/target/pass_nodebug.{}.json", VERIF_DIR, self.property);
+        if nodebug_pass && self.replay.is_none() {
+            let c = ev["coverage"].as_object().unwrap();
+            let pick = |k: &str| c.get(k).cloned().unwrap_or(Value::Null);
+            fs::write(
+                &side,
+                json!({"build": "debug-assertions off, overflow-checks off", "tier_of_this_pass": self.tier, "violations": viols.len(), "wall_s": wall,
+                       "states": pick("states"), "transitions": pick("transitions"), "programs": pick("programs"), "evaluations": pick("evaluations")})
+                .to_string(),
+            )
+            .ok();
+        }
+        let mut ev = ev;
+        if !nodebug_pass {
+            if let Ok(sv) = fs::read_to_string(&side) {
+                if let Ok(v) = serde_json::from_str::<Value>(&sv) {
+                    ev["coverage"]["pass_without_debug_assertions"] = v;
+                }
+            }
+        }
         // in replay mode the evidence file is not touched
-        if self.replay.is_none() {
+        if self.replay.is_none() && !nodebug_pass {
             fs::write(
                 format!("{}/{}.json", evdir, self.property),
                 serde_json::to_string_pretty(&ev).unwrap(),
@@ -211,8 +235,11 @@ impl Ctx {
         }
         if viols.is_empty() {
             println!(
-                "OK property={} tier={} wall={:.1}s",
-                self.property, self.tier, wall
+                "OK property={} tier={}{} wall={:.1}s",
+                self.property,
+                self.tier,
+                if nodebug_pass { " pass=nodebug" } else { "" },
+                wall
             );
             return 0;
         }
@@ -232,6 +259,7 @@ impl Ctx {
             let body = json!({
                 "property": self.property,
                 "tier": self.tier,
+                "pass": if nodebug_pass { "nodebug" } else { "main" },
                 "seed": self.seed,
                 "key": v.key,
                 "summary": v.summary,
